@@ -8,6 +8,8 @@ import (
 // childMain dispatches the re-executed test binary (VERIF_CHILD=<mode>).
 func childMain(mode string) int {
 	switch mode {
+	case "victim":
+		return victimMain()
 	case "apiserver":
 		return apiServerChild()
 	default:
